@@ -1831,13 +1831,16 @@ func (m *repoManager) newVersion(parent dvid.UUID, note string, branchname strin
 		return dvid.NilUUID, ErrInvalidVersion
 	}
 
-	// The repo's lock is taken before the node's: that is the order in which the repo is serialised,
-	// committed and logged.  Both are held for writing from the checks of the existing children to the
-	// insertion of the new child, so that two requests cannot both add a child on one branch.
+	// The repo's lock is taken before the DAG's and the DAG's before the node's: that is the order in
+	// which the repo is serialised (every save), committed and logged.  All are held for writing from
+	// the checks of the existing children to the insertion of the new child, so that two requests
+	// cannot both add a child on one branch.
 	r.Lock()
+	r.dag.Lock()
 	node.Lock()
 	if !node.locked {
 		node.Unlock()
+		r.dag.Unlock()
 		r.Unlock()
 		return dvid.NilUUID, ErrBranchUnlockedNode
 	}
@@ -1849,16 +1852,16 @@ func (m *repoManager) newVersion(parent dvid.UUID, note string, branchname strin
 		branchname = node.branch
 		for _, sister := range node.children {
 			// check if there is already a branch here
-			r.dag.RLock()
 			sisternode, found := r.dag.nodes[sister]
-			r.dag.RUnlock()
 			if !found {
 				node.Unlock()
+				r.dag.Unlock()
 				r.Unlock()
 				return dvid.NilUUID, fmt.Errorf("cannot find sibling nodes")
 			}
 			if sisternode.branch == branchname {
 				node.Unlock()
+				r.dag.Unlock()
 				r.Unlock()
 				return dvid.NilUUID, ErrBranchUnique
 			}
@@ -1867,6 +1870,7 @@ func (m *repoManager) newVersion(parent dvid.UUID, note string, branchname strin
 		for _, othernode := range r.dag.nodes {
 			if othernode.branch == branchname {
 				node.Unlock()
+				r.dag.Unlock()
 				r.Unlock()
 				return dvid.NilUUID, ErrBranchUnique
 			}
@@ -1877,6 +1881,7 @@ func (m *repoManager) newVersion(parent dvid.UUID, note string, branchname strin
 	childUUID, childV, err := m.newUUID(assign)
 	if err != nil {
 		node.Unlock()
+		r.dag.Unlock()
 		r.Unlock()
 		return dvid.NilUUID, err
 	}
@@ -1888,11 +1893,10 @@ func (m *repoManager) newVersion(parent dvid.UUID, note string, branchname strin
 	node.children = append(node.children, childV)
 	node.updated = time.Now()
 
-	r.dag.Lock()
 	r.dag.nodes[childV] = child
-	r.dag.Unlock()
 	r.updated = time.Now()
 	node.Unlock()
+	r.dag.Unlock()
 	r.Unlock()
 
 	m.branchMutex.Lock()
